@@ -321,7 +321,7 @@ End EtokInd.
 Lemma rbind_stuck {A B} (r : mresult A) (f : A -> mresult B) : r = Stuck -> rbind r f = Stuck.
 Proof. intros ->. reflexivity. Qed.
 
-Ltac fail_case := cbn [Base.bind rbind rmap result_to_res]; split; [reflexivity | apply wf_out_other; intros ? E; discriminate E].
+Ltac fail_case := cbn [Base.bind rbind rmap result_to_res]; split; [reflexivity | apply wf_out_other; let H := fresh "Hd" in intros ? H; discriminate H].
 
 Section Level.
   Variable ft : list fdef.
@@ -533,7 +533,7 @@ Section Level.
 
   (* ---- loops ---- *)
   Lemma add_log_set_flag w f msg : add_log (s_set_break_flag w f) msg = s_set_break_flag (add_log w msg) f.
-  Proof. unfold add_log. destruct w; cbn [s_logs s_set_break_flag s_set_logs]. destruct (_ <=? _); reflexivity. Qed.
+  Proof. unfold add_log. destruct w; unfold s_set_break_flag, s_set_logs; cbn. destruct (_ <=? _); reflexivity. Qed.
   Lemma add_log_flag w msg : s_break_flag (add_log w msg) = s_break_flag w.
   Proof. unfold add_log. destruct (_ <=? _); [reflexivity|]. destruct w; reflexivity. Qed.
 
@@ -548,11 +548,11 @@ Section Level.
     destruct sg; cbn [sig_code cut_sig Z.eqb orb Pos.eqb]; rewrite ?set_flag_twice; reflexivity.
   Qed.
 
-  Lemma loop_halted_value m st : st_flag st <> 0 -> forall e, exec_value_o ec e st = Ok (Expr.SInt 0, st).
+  Lemma loop_halted_value st : st_flag st <> 0 -> forall e, exec_value_o ec e st = Ok (Expr.SInt 0, st).
   Proof. intros H e. unfold exec_value_o. destruct (st_flag st =? 0) eqn:E; [apply Z.eqb_eq in E; contradiction|]. reflexivity. Qed.
   Lemma for_loop_halted n cnd inc body line counter st :
     st_flag st <> 0 -> for_loop ec (S n) cnd inc body line counter st = Ok st.
-  Proof. intros H. cbn [for_loop]. rewrite (loop_halted_value true st H). reflexivity. Qed.
+  Proof. intros H. cbn [for_loop]. rewrite (loop_halted_value st H). reflexivity. Qed.
 
   Lemma sig_code_nz sg : sg <> Normal -> sig_code sg <> 0.
   Proof. destruct sg; cbn; intros H; try discriminate; contradiction. Qed.
@@ -576,7 +576,7 @@ Section Level.
       destruct (HB body m c1 W1 Hok) as [E2 W2]. { intros E. apply Hns. rewrite E. reflexivity. }
       rewrite E2. destruct (blk (prog_of body) c1) as [[sg c2]|[s| |w]| |] eqn:R2; try solve [fail_case].
       cbn [out_state rmap result_to_res Base.bind rbind fst snd] in *. specialize (W2 sg c2 eq_refl).
-      assert (Hgt : counter + 1 >? MAX_LOOP = true) by (apply Z.gtb_lt; lia).
+      assert (Hgt : counter + 1 >? MAX_LOOP = true) by (rewrite Z.gtb_ltb; apply Z.ltb_lt; lia).
       rewrite Hgt. rewrite limit_exit_emb. unfold cut_off. cbn [ML l_limit_note].
       split; [reflexivity|]. apply wf_out_fin. unfold wf, m_limit. cbn [world set_world]. rewrite add_log_flag. exact W2.
     - destruct (value_sim m cnd c Hwf) as [E1 W1]. { intros E. apply Hns. rewrite E. reflexivity. }
@@ -587,7 +587,7 @@ Section Level.
       destruct (HB body m c1 W1 Hok) as [E2 W2]. { intros E. apply Hns. rewrite E. reflexivity. }
       rewrite E2. destruct (blk (prog_of body) c1) as [[sg c2]|[s| |w]| |] eqn:R2; try solve [fail_case].
       cbn [out_state rmap result_to_res Base.bind rbind fst snd] in *. specialize (W2 sg c2 eq_refl).
-      assert (Hgt : counter + 1 >? MAX_LOOP = false) by (apply Z.gtb_ltb, Z.ltb_ge; lia).
+      assert (Hgt : counter + 1 >? MAX_LOOP = false) by (rewrite Z.gtb_ltb; apply Z.ltb_ge; lia).
       rewrite Hgt. rewrite st_flag_emb_sig.
       destruct sg; cbn [sig_code Z.eqb Pos.eqb] in *.
       + rewrite emb_sig_normal by exact W2. apply IH; [exact W2 | lia | lia | exact Hns].
@@ -595,5 +595,72 @@ Section Level.
         split; [reflexivity | apply wf_out_fin; exact W2].
       + rewrite clear_emb_sig by exact W2. apply IH; [exact W2 | lia | lia | exact Hns].
       + split; [reflexivity | apply wf_out_fin; exact W2].
+  Qed.
+
+  Lemma for_sim m cnd inc body line :
+    toks_ok inc = true -> toks_ok body = true -> forall left n counter c,
+    wf c -> counter + Z.of_nat left = MAX_LOOP -> (left < n)%nat ->
+    for_sem ML (funs_of ft) blk left (oexpr_of cnd) (prog_of inc) (prog_of body) line c <> Stuck ->
+    for_loop ec n cnd inc body line counter (emb ft m c)
+      = out_state ft m (for_sem ML (funs_of ft) blk left (oexpr_of cnd) (prog_of inc) (prog_of body) line c)
+    /\ wf_out (for_sem ML (funs_of ft) blk left (oexpr_of cnd) (prog_of inc) (prog_of body) line c).
+  Proof.
+    intros Hoki Hok. induction left as [|left IH]; intros n counter c Hwf Hc Hn Hns;
+      (destruct n as [|n]; [lia|]); cbn [for_loop for_sem] in *; cbn [ML l_vzero l_truth] in *.
+    - destruct (value_sim m cnd c Hwf) as [E1 W1]. { intros E. apply Hns. rewrite E. reflexivity. }
+      rewrite E1. destruct (EVO (Expr.SInt 0) (oexpr_of cnd) c) as [[v c1]|[s| |w]| |] eqn:R1; try solve [fail_case].
+      cbn [val_out rmap result_to_res Base.bind rbind fst snd] in *. specialize (W1 v c1 eq_refl).
+      destruct (Expr.to_b v); cbn [negb] in *.
+      2: { unfold out_state. cbn [rmap result_to_res]. rewrite emb_sig_normal by exact W1. split; [reflexivity | apply wf_out_fin; exact W1]. }
+      destruct (HB body m c1 W1 Hok) as [E2 W2]. { intros E. apply Hns. rewrite E. reflexivity. }
+      rewrite E2. destruct (blk (prog_of body) c1) as [[sg c2]|[s| |w]| |] eqn:R2; try solve [fail_case].
+      cbn [out_state rmap result_to_res Base.bind rbind fst snd] in *. specialize (W2 sg c2 eq_refl).
+      assert (Hgt : counter + 1 >? MAX_LOOP = true) by (rewrite Z.gtb_ltb; apply Z.ltb_lt; lia).
+      rewrite Hgt. rewrite limit_exit_emb. unfold cut_off. cbn [ML l_limit_note].
+      split; [reflexivity|]. apply wf_out_fin. unfold wf, m_limit. cbn [world set_world]. rewrite add_log_flag. exact W2.
+    - destruct (value_sim m cnd c Hwf) as [E1 W1]. { intros E. apply Hns. rewrite E. reflexivity. }
+      rewrite E1. destruct (EVO (Expr.SInt 0) (oexpr_of cnd) c) as [[v c1]|[s| |w]| |] eqn:R1; try solve [fail_case].
+      cbn [val_out rmap result_to_res Base.bind rbind fst snd] in *. specialize (W1 v c1 eq_refl).
+      destruct (Expr.to_b v); cbn [negb] in *.
+      2: { unfold out_state. cbn [rmap result_to_res]. rewrite emb_sig_normal by exact W1. split; [reflexivity | apply wf_out_fin; exact W1]. }
+      destruct (HB body m c1 W1 Hok) as [E2 W2]. { intros E. apply Hns. rewrite E. reflexivity. }
+      rewrite E2. destruct (blk (prog_of body) c1) as [[sg c2]|[s| |w]| |] eqn:R2; try solve [fail_case].
+      cbn [out_state rmap result_to_res Base.bind rbind fst snd] in *. specialize (W2 sg c2 eq_refl).
+      assert (Hgt : counter + 1 >? MAX_LOOP = false) by (rewrite Z.gtb_ltb; apply Z.ltb_ge; lia).
+      rewrite Hgt. rewrite st_flag_emb_sig.
+      destruct n as [|n']; [lia|].
+      (* the increment, then the next pass *)
+      assert (Hinc : rbind (blk (prog_of inc) c2)
+                       (fun r2 => match fst r2 with
+                                  | Normal => for_sem ML (funs_of ft) blk left (oexpr_of cnd) (prog_of inc) (prog_of body) line (snd r2)
+                                  | sg0 => Fin (sg0, snd r2)
+                                  end) <> Stuck ->
+              (do st3 <- ec inc (Ok (emb ft m c2)); for_loop ec (S n') cnd inc body line (counter + 1) st3)
+              = out_state ft m (rbind (blk (prog_of inc) c2)
+                       (fun r2 => match fst r2 with
+                                  | Normal => for_sem ML (funs_of ft) blk left (oexpr_of cnd) (prog_of inc) (prog_of body) line (snd r2)
+                                  | sg0 => Fin (sg0, snd r2)
+                                  end))
+              /\ wf_out (rbind (blk (prog_of inc) c2)
+                       (fun r2 => match fst r2 with
+                                  | Normal => for_sem ML (funs_of ft) blk left (oexpr_of cnd) (prog_of inc) (prog_of body) line (snd r2)
+                                  | sg0 => Fin (sg0, snd r2)
+                                  end))).
+      { intros Hns2. destruct (HB inc m c2 W2 Hoki) as [E3 W3]. { intros E. apply Hns2. rewrite E. reflexivity. }
+        rewrite E3. destruct (blk (prog_of inc) c2) as [[sg2 c3]|[s| |w]| |] eqn:R3; try solve [fail_case].
+        cbn [out_state rmap result_to_res Base.bind rbind fst snd] in *. specialize (W3 sg2 c3 eq_refl).
+        destruct sg2.
+        - rewrite emb_sig_normal by exact W3. apply IH; [exact W3 | lia | lia | exact Hns2].
+        - rewrite for_loop_halted by (rewrite st_flag_emb_sig; discriminate). split; [reflexivity | apply wf_out_fin; exact W3].
+        - rewrite for_loop_halted by (rewrite st_flag_emb_sig; discriminate). split; [reflexivity | apply wf_out_fin; exact W3].
+        - rewrite for_loop_halted by (rewrite st_flag_emb_sig; discriminate). split; [reflexivity | apply wf_out_fin; exact W3]. }
+      destruct sg; cbn [sig_code Z.eqb Pos.eqb] in *.
+      + rewrite emb_sig_normal by exact W2. apply Hinc. exact Hns.
+      + rewrite clear_emb_sig by exact W2. unfold out_state. cbn [rmap result_to_res]. rewrite emb_sig_normal by exact W2.
+        split; [reflexivity | apply wf_out_fin; exact W2].
+      + rewrite clear_emb_sig by exact W2. apply Hinc. exact Hns.
+      + rewrite (Hhalt _ _ _ R2) by (rewrite st_flag_emb_sig; discriminate). cbn [Base.bind].
+        rewrite for_loop_halted by (rewrite st_flag_emb_sig; discriminate).
+        split; [reflexivity | apply wf_out_fin; exact W2].
   Qed.
 End Level.
